@@ -5,7 +5,7 @@
 import os, sys
 sys.path.insert(0, os.path.join(os.environ.get("AIOFTP_REPO", "/repo"), "src"))
 OBLIGATION = 'aioftp.server:Server.retr#SEQ::PathConditions.__call__.<locals>.wrapper/call:Server.get_paths/pre:user-and-cwd-set'
-MODEL = {'block_size!0': 1, 'logged_done!14': False, 'u_cur_home!41': 'Empty(Seq(String))', 'current_directory_done!16': True, 'restart_offset!10': 0, 'current_directory_present!15': True, 'cwd!42': 'Empty(Seq(String))', 'user_present!11': False, 'logged_present!13': True, 'passive_server_present!19': True}
+MODEL = {'user_present!11': False, 'current_directory_done!16': True, 'logged_done!14': False, 'current_directory_present!15': True, 'restart_offset!10': 0, 'cwd!103': 'Empty(Seq(String))', 'block_size!0': 1, 'u_cur_home!102': 'Empty(Seq(String))', 'logged_present!13': True, 'passive_server_present!19': True}
 SOLVER_NOTE = ''
 
 print("obligation", OBLIGATION, "failed; no concrete failing input could be constructed automatically")
